@@ -79,7 +79,12 @@ def _helper_read_frame(lit: LineIterator) -> tuple:
     # Time field is optional.
     line = next(lit)
     # The title is followed by an optional time, e.g. "title, t= 0.0" or "title t= 0.0 step= 1"
-    title = line.split("t=")[0].strip().rstrip(",").rstrip() if "t=" in line else line[:-1]
+    title = line[:-1]
+    if "t=" in line:
+        title = line.split("t=")[0].strip()
+        if title.endswith(","):
+            # only the comma that separates the title from the time is dropped
+            title = title[:-1].rstrip()
     time = 0.0
     if "t=" in line:
         # The time may be followed by other fields, e.g. "step= 100".
